@@ -3,6 +3,16 @@ import twosigma.memento as m
 from verif_side import log
 
 
+def _thread():
+    """index (from 1) of the managed thread the scheduler is running, 0 outside the scheduler"""
+    try:
+        import verif_sched
+        me = getattr(verif_sched._current, "m", None)
+        return (me.idx + 1) if me is not None else 0
+    except Exception:
+        return 0
+
+
 def value_of(name, a):
     if name == "tf":
         return bytes([65 + a % 20]) * (60 * a + 7)
@@ -17,7 +27,7 @@ def value_of(name, a):
 
 @m.memento_function(cluster="vt", version="1")
 def tf(a):
-    log("Body", "tf", a)
+    log("Body", "tf", a, _thread())
     if a == 13:
         raise ValueError("unlucky %d" % a)
     return value_of("tf", a)
